@@ -138,6 +138,14 @@ class Program:
         return "(%s)" % fs if v.kind == "tuple" else " { %s }" % fs
 
     def typedef(self, with_attrs=True):
+        if self.tags.get("frozen_src") and with_attrs in self.tags["frozen_src"]:
+            return self.tags["frozen_src"][with_attrs]
+        return self._typedef(with_attrs)
+
+    def freeze(self):
+        self.tags["frozen_src"] = {True: self._typedef(True), False: self._typedef(False)}
+
+    def _typedef(self, with_attrs=True):
         """the type definition; with_attrs=False gives the generator's copy used in the
         Verus file (the inert educe helper attributes dropped, fields pub)."""
         out = []
@@ -184,6 +192,8 @@ class Program:
         return out
 
     def clone(self):
+        """deep copy whose *source text* stays that of the original (canaries mutate only sem)"""
+        self.freeze()
         return copy.deepcopy(self)
 
 
